@@ -54,7 +54,7 @@ def main():
     props = [f"C{i:02d}" for i in range(1, 21)] if props == "all" else props.split(",")
     ids = sys.argv[2:] or sorted(d for d in os.listdir(os.path.join(ROOT, "seeded"))
                                  if os.path.isdir(os.path.join(ROOT, "seeded", d)))
-    path = os.path.join(ROOT, "seeded", "MATRIX.json")
+    path = os.environ.get("MATRIX_FILE") or os.path.join(ROOT, "seeded", "MATRIX.json")
     matrix = json.load(open(path)) if os.path.exists(path) else {}
     with cf.ThreadPoolExecutor(max_workers=5) as ex:
         for sid, res in ex.map(lambda s: run_one(s, props), ids):
